@@ -1,13 +1,13 @@
-import Juniper.Model.BTreeSlots
+import Juniper.Model.BTreeSlotsOps
 /-!
 # Slot-level lemmas (C03 "no retained garbage"): the array primitives
 
 `Rep a cap l`: the fixed array `a` has `cap` slots, its live prefix holds exactly the elements of `l`
 (all non-zero) and every slot behind the live prefix is zero. Each primitive of
-`Model/BTreeSlots.lean` is shown to map `Rep` to `Rep` of the corresponding list operation.
+`Model/BTreeSlotsOps.lean` is shown to map `Rep` to `Rep` of the corresponding list operation.
 -/
-namespace Juniper.Proofs.TreeSlots
-open Juniper.Model.BTreeSlots Juniper.Gen
+namespace Juniper.Proofs.TreeSlotsOps
+open Juniper.Model.BTreeSlotsOps Juniper.Gen
 
 variable {α : Type}
 
@@ -400,4 +400,4 @@ theorem amalgamGet_local {isExtra shifts : Int → Int → Bool} {dec : Bool} {e
     · unfold bumpIf; split <;> omega
     · simp
 
-end Juniper.Proofs.TreeSlots
+end Juniper.Proofs.TreeSlotsOps
